@@ -50,7 +50,7 @@ package vegeta
 //@   pragma nooverflow skip
 //@   ensures [E1] (p.StartAt.Per == 0 || p.StartAt.Freq == 0) ==> wait == 0 && !stop
 //@   ensures [E2] p.StartAt.Per != 0 && p.StartAt.Freq != 0 && (p.StartAt.Per < 0 || p.StartAt.Freq < 0) ==> stop
-//@   ensures [first-hit-at-once] p.StartAt.Per > 0 && p.StartAt.Freq > 0 && hits == 0 ==> wait == 0 && !stop
+//@   ensures [first-hit-is-never-delayed] p.StartAt.Per > 0 && p.StartAt.Freq > 0 && hits == 0 ==> wait == 0
 
 //@ func (SinePacer).Pace
 //@   property C01
